@@ -246,7 +246,15 @@ pub fn exec(cx: &mut Ctx, c: &Case) {
                 LONG_BEFORE.with(|n| n.set(n.get() + 1));
             }
             h.update(m);
-            h.finalize_reset()
+            if c.mseed & 0x100 != 0 {
+                // into caller-provided memory that still holds other data (a reused output buffer)
+                let mut out = vec![0xA5u8; exp.len()];
+                out.iter_mut().enumerate().for_each(|(i, b)| *b ^= i as u8);
+                h.finalize_into_slice(&mut out);
+                out
+            } else {
+                h.finalize_reset()
+            }
         })
     });
     api::force_backend(0);
@@ -289,6 +297,11 @@ fn hash_menu(prop: &str) -> Vec<HashId> {
         let mut v = Vec::new();
         for bits in [256u32, 512, 1024] {
             for n in api::SKEIN_N {
+                // under Miri the very long outputs (thousands of Threefish calls, in the
+                // implementation and in the model) are left to the native builds
+                if cfg!(miri) && n > 600 {
+                    continue;
+                }
                 v.push(HashId { fam, bits, out: n });
             }
         }
@@ -358,7 +371,7 @@ pub fn run(cx: &mut Ctx) {
         let bs = id.block_size() as u64;
         let len = match if cfg!(miri) { 0 } else { rng.below(10) } {
             // now and then a message of many KiB in one piece (whole pages, odd sizes)
-            0 if rng.below(8) == 0 => 4096 * rng.range(1, 33) + [0u64, 0, 1, 63, 4095][rng.below(5) as usize],
+            0 if !cfg!(miri) && rng.below(8) == 0 => 4096 * rng.range(1, 33) + [0u64, 0, 1, 63, 4095][rng.below(5) as usize],
             0..=3 => rng.below(if cfg!(miri) { bs + 9 } else { 3 * bs + 9 }),
             4..=6 => bs * rng.range(1, 40) + rng.below(3) - 1 + rng.below(2) * (bs - 9),
             7 if id.fam == Fam::Groestl && !cfg!(miri) => 255 * bs + rng.below(3 * bs), // 255/256/257 blocks incl. padding
